@@ -319,6 +319,8 @@ class Envelope:
                     "Given states have to be members of the envelope, "
                     "use env.fock and env.polarization"
                 )
+            if s.measured:
+                raise ValueError("Given state has already been destroyed")
 
         outcomes = {}
         reshape_shape = []
@@ -327,6 +329,8 @@ class Envelope:
             to_measure: List[Any] = [self.polarization, self.fock]
             if separate_measurement and len(states) > 0:
                 to_measure = list(states)
+            if all(s.measured for s in to_measure):
+                raise ValueError("Envelope has already been destroyed")
             for s in to_measure:
                 if s.measured:
                     continue
